@@ -1075,3 +1075,297 @@ mod wire {
     }
 }
 pub use wire::run as wire;
+
+// ------------------------------------------------------------------ C16
+mod resp {
+    use super::*;
+    use omaha_client::protocol::response::{parse_json_response, App, OmahaStatus, Response, UpdateCheck};
+    use serde_json::Map;
+
+    fn subst(line: &str) -> String {
+        // "@NULL" -> null ; "@U64:123" -> 123 ; "@NUM:-1.5" -> -1.5   (TLC can print neither)
+        let mut s = line.replace("\"@NULL\"", "null");
+        for tag in ["@U64:", "@NUM:"] {
+            loop {
+                let pat = format!("\"{}", tag);
+                match s.find(&pat) {
+                    Some(i) => {
+                        let rest = &s[i + pat.len()..];
+                        let j = rest.find('"').unwrap();
+                        let num = rest[..j].to_string();
+                        s = format!("{}{}{}", &s[..i], num, &rest[j + 1..]);
+                    }
+                    None => break,
+                }
+            }
+        }
+        s
+    }
+
+    fn status_s(s: &OmahaStatus) -> Value {
+        match s {
+            OmahaStatus::Ok => json!("ok"),
+            OmahaStatus::Restricted => json!("restricted"),
+            OmahaStatus::NoUpdate => json!("noupdate"),
+            OmahaStatus::Error(e) => json!(e),
+        }
+    }
+
+    fn put(m: &mut Map<String, Value>, k: &str, v: Option<Value>) {
+        if let Some(v) = v {
+            m.insert(k.to_string(), v);
+        }
+    }
+
+    fn uc_j(u: &UpdateCheck) -> Value {
+        let mut m = Map::new();
+        m.insert("status".into(), status_s(&u.status));
+        put(&mut m, "info", u.info.clone().map(Value::from));
+        put(&mut m, "urls", u.urls.as_ref().map(|us| json!({"url": us.url.iter().map(|x| json!({"codebase": x.codebase})).collect::<Vec<_>>()})));
+        put(&mut m, "manifest", u.manifest.as_ref().map(|mf| {
+            json!({"version": mf.version,
+                   "actions": {"action": mf.actions.action.iter().map(|a| {
+                       let mut am = Map::new();
+                       put(&mut am, "event", a.event.clone().map(Value::from));
+                       put(&mut am, "run", a.run.clone().map(Value::from));
+                       for (k, v) in &a.extra_attributes { am.insert(k.clone(), v.clone()); }
+                       Value::Object(am)
+                   }).collect::<Vec<_>>()},
+                   "packages": {"package": mf.packages.package.iter().map(|p| {
+                       let mut pm = Map::new();
+                       pm.insert("name".into(), json!(p.name));
+                       pm.insert("required".into(), json!(p.required));
+                       put(&mut pm, "size", p.size.map(Value::from));
+                       put(&mut pm, "hash", p.hash.clone().map(Value::from));
+                       put(&mut pm, "hash_sha256", p.hash_sha256.clone().map(Value::from));
+                       pm.insert("fp".into(), json!(p.fingerprint));
+                       for (k, v) in &p.extra_attributes { pm.insert(k.clone(), v.clone()); }
+                       Value::Object(pm)
+                   }).collect::<Vec<_>>()}})
+        }));
+        for (k, v) in &u.extra_attributes {
+            m.insert(k.clone(), v.clone());
+        }
+        Value::Object(m)
+    }
+
+    fn app_j(a: &App) -> Value {
+        let mut m = Map::new();
+        m.insert("appid".into(), json!(a.id));
+        m.insert("status".into(), status_s(&a.status));
+        put(&mut m, "cohort", a.cohort.id.clone().map(Value::from));
+        put(&mut m, "cohorthint", a.cohort.hint.clone().map(Value::from));
+        put(&mut m, "cohortname", a.cohort.name.clone().map(Value::from));
+        put(&mut m, "ping", a.ping.as_ref().map(|p| {
+            // the field is private: read the status from the Debug form
+            let d = format!("{:?}", p);
+            let st = if d.contains("status: Ok") { "ok".to_string() } else if d.contains("Restricted") { "restricted".into() }
+                     else if d.contains("NoUpdate") { "noupdate".into() } else { d };
+            json!({"status": st})
+        }));
+        put(&mut m, "updatecheck", a.update_check.as_ref().map(uc_j));
+        put(&mut m, "event", a.events.as_ref().map(|es| Value::Array(es.iter().map(|e| json!({"status": status_s(&e.status)})).collect())));
+        for (k, v) in &a.extra_attributes {
+            m.insert(k.clone(), v.clone());
+        }
+        Value::Object(m)
+    }
+
+    fn reencode(r: &Response) -> Value {
+        let mut m = Map::new();
+        m.insert("protocol".into(), json!(r.protocol_version));
+        put(&mut m, "server", r.server.clone().map(Value::from));
+        put(&mut m, "daystart", r.daystart.as_ref().map(|d| {
+            let mut dm = Map::new();
+            put(&mut dm, "elapsed_days", d.elapsed_days.map(Value::from));
+            put(&mut dm, "elapsed_seconds", d.elapsed_seconds.map(Value::from));
+            Value::Object(dm)
+        }));
+        m.insert("app".into(), Value::Array(r.apps.iter().map(app_j).collect()));
+        Value::Object(m)
+    }
+
+    /// the document with null = absent and the keys the grammar ignores removed
+    fn strip(v: &Value, ignored: &[String]) -> Value {
+        match v {
+            Value::Object(m) => Value::Object(
+                m.iter().filter(|(k, x)| !x.is_null() && !ignored.contains(k)).map(|(k, x)| (k.clone(), strip(x, ignored))).collect(),
+            ),
+            Value::Array(a) => Value::Array(a.iter().map(|x| strip(x, ignored)).collect()),
+            x => x.clone(),
+        }
+    }
+
+    /// TLA+ has one empty function, printed as []: where the grammar has an object (or an element of a list of
+    /// objects) an empty [] is the empty object {}.  (Wrong-type edits never use an empty array for an object.)
+    fn fix_empty(v: &mut Value, key: &str, in_list_of_objects: bool) {
+        const OBJ_KEYS: [&str; 8] = ["response", "daystart", "ping", "updatecheck", "urls", "manifest", "actions", "packages"];
+        const LIST_KEYS: [&str; 5] = ["app", "event", "url", "action", "package"];
+        if let Value::Array(a) = v {
+            if a.is_empty() && (OBJ_KEYS.contains(&key) || in_list_of_objects) {
+                *v = json!({});
+                return;
+            }
+        }
+        match v {
+            Value::Object(m) => {
+                for (k, x) in m.iter_mut() {
+                    fix_empty(x, k, false);
+                }
+            }
+            Value::Array(a) => {
+                let list = LIST_KEYS.contains(&key);
+                for x in a.iter_mut() {
+                    fix_empty(x, "", list);
+                }
+            }
+            _ => {}
+        }
+    }
+
+    fn same(a: &Value, b: &Value) -> bool {
+        match (a, b) {
+            (Value::Array(x), Value::Object(o)) | (Value::Object(o), Value::Array(x)) if x.is_empty() && o.is_empty() => true,
+            (Value::Object(x), Value::Object(y)) => x.len() == y.len() && x.iter().all(|(k, v)| y.get(k).map(|w| same(v, w)).unwrap_or(false)),
+            (Value::Array(x), Value::Array(y)) => x.len() == y.len() && x.iter().zip(y).all(|(p, q)| same(p, q)),
+            (Value::Number(x), Value::Number(y)) => x.to_string() == y.to_string(),
+            (x, y) => x == y,
+        }
+    }
+
+    pub fn run(vec_path: &str, out_path: &str, seed: u64) {
+        let mut out = Out::new(out_path);
+        let f = std::fs::File::open(vec_path).expect("open vectors");
+        let mut docs: Vec<String> = vec![];
+        for line in std::io::BufReader::new(f).lines() {
+            let line = line.expect("read");
+            if line.trim().is_empty() {
+                continue;
+            }
+            out.n += 1;
+            let mut v: Value = serde_json::from_str(&subst(&line)).expect("vector");
+            fix_empty(&mut v["doc"], "", false);
+            let text = serde_json::to_string(&v["doc"]).unwrap();
+            if docs.len() < 400 {
+                docs.push(text.clone());
+            }
+            let r = guarded(|| -> Vec<(String, Value)> {
+                let mut bad = vec![];
+                let valid = v["valid"].as_bool().unwrap();
+                let plain = parse_json_response(text.as_bytes());
+                let mut pre = b")]}'\n".to_vec();
+                pre.extend_from_slice(text.as_bytes());
+                let prefixed = parse_json_response(&pre);
+                match (&plain, &prefixed) {
+                    (Ok(a), Ok(b)) if a == b => {}
+                    (Err(_), Err(_)) => {}
+                    _ => bad.push(("the anti-XSSI prefix changes the result".into(), json!(text))),
+                }
+                match (&plain, valid) {
+                    (Ok(_), false) => bad.push(("accepted a document with a missing / null / wrongly typed field".into(), json!(text))),
+                    (Err(e), true) => bad.push(("rejected a well-formed document".into(), json!(format!("{} :: {}", e, text)))),
+                    (Err(_), false) => {}
+                    (Ok(resp), true) => {
+                        let ignored: Vec<String> = v["ignored"].as_array().map(|a| a.iter().map(|x| x.as_str().unwrap().to_string()).collect()).unwrap_or_default();
+                        let exp = strip(&v["doc"]["response"], &ignored);
+                        let got = reencode(resp);
+                        if !same(&exp, &got) {
+                            bad.push(("decoded value differs from what the document says".into(), json!({"exp": exp, "got": got})));
+                        }
+                        if v["urlsKnown"] == true {
+                            let got: Vec<String> = resp.apps[0].update_check.as_ref().map(|u| u.get_all_full_urls().collect()).unwrap_or_default();
+                            let exp: Vec<String> = v["urls"].as_array().map(|a| a.iter().map(|x| x.as_str().unwrap().to_string()).collect()).unwrap_or_default();
+                            if got != exp {
+                                bad.push(("full URLs are not every codebase joined with every package name, in order".into(), json!({"exp": exp, "got": got})));
+                            }
+                        }
+                    }
+                }
+                bad
+            });
+            match r {
+                Ok(bads) => {
+                    for (w, g) in bads {
+                        out.bad(&w, &v, g);
+                    }
+                }
+                Err(p) => out.bad("panic in the parser", &v, json!(p)),
+            }
+        }
+        // totality sweep in a child process: a stack overflow aborts instead of unwinding
+        let sweep_in = format!("{}.sweep", out_path);
+        std::fs::write(&sweep_in, docs.join("\n")).expect("write sweep input");
+        let st = std::process::Command::new(std::env::current_exe().expect("exe"))
+            .args(["resp-sweep", &sweep_in, &seed.to_string()])
+            .output();
+        out.n += 1;
+        match st {
+            Ok(o) if o.status.success() => {
+                let s = String::from_utf8_lossy(&o.stdout);
+                for l in s.lines() {
+                    if let Some(rest) = l.strip_prefix("SWEEP-PANIC ") {
+                        out.bad("panic in the parser on sweep input", &json!({"sweep": rest}), json!(rest));
+                    } else if let Some(rest) = l.strip_prefix("SWEEP-N ") {
+                        out.n += rest.trim().parse::<usize>().unwrap_or(0);
+                    }
+                }
+            }
+            Ok(o) => out.bad("the parser aborted the process (stack overflow?) on sweep input", &json!({"sweep": "child"}),
+                             json!(format!("{:?} {}", o.status, String::from_utf8_lossy(&o.stderr).chars().take(400).collect::<String>()))),
+            Err(e) => out.bad("could not run the sweep child", &json!({}), json!(e.to_string())),
+        }
+        out.finish();
+    }
+
+    pub fn sweep(path: &str, seed: u64) {
+        use rand::{Rng, SeedableRng};
+        let mut rng = rand::rngs::StdRng::seed_from_u64(seed);
+        let docs: Vec<Vec<u8>> = std::fs::read_to_string(path).unwrap_or_default().lines().map(|l| l.as_bytes().to_vec()).collect();
+        let mut n = 0usize;
+        let mut try_one = |bytes: &[u8], what: &str| {
+            n += 1;
+            if let Err(p) = guarded(|| {
+                let _ = parse_json_response(bytes);
+            }) {
+                println!("SWEEP-PANIC {} {}", what, p);
+            }
+        };
+        for (i, d) in docs.iter().enumerate() {
+            let full = i < 40;
+            // every truncation point
+            for k in 0..d.len() {
+                if full || k % 7 == 0 {
+                    try_one(&d[..k], "truncation");
+                }
+            }
+            // every single-bit flip
+            for bit in 0..d.len() * 8 {
+                if full || rng.gen_range(0..40) == 0 {
+                    let mut m = d.clone();
+                    m[bit / 8] ^= 1 << (bit % 8);
+                    try_one(&m, "bitflip");
+                }
+            }
+        }
+        // deeply nested values (inside an extension attribute and at top level)
+        for depth in [200usize, 100_000, 3_000_000] {
+            let mut s = String::from("{\"response\":{\"protocol\":\"3.0\",\"app\":[{\"appid\":\"a\",\"status\":\"ok\",\"x\":");
+            s.push_str(&"[".repeat(depth));
+            s.push_str(&"]".repeat(depth));
+            s.push_str("}]}}");
+            try_one(s.as_bytes(), "nesting");
+            let t = "{\"a\":".repeat(depth) + "1" + &"}".repeat(depth);
+            try_one(t.as_bytes(), "nesting");
+            let u = "[".repeat(depth);
+            try_one(u.as_bytes(), "nesting");
+        }
+        for _ in 0..20000 {
+            let len = rng.gen_range(0..64);
+            let b: Vec<u8> = (0..len).map(|_| rng.gen()).collect();
+            try_one(&b, "random");
+        }
+        println!("SWEEP-N {}", n);
+    }
+}
+pub use resp::run as resp;
+pub use resp::sweep as resp_sweep;
